@@ -169,3 +169,54 @@ Example red_example_ewma :
        (port0 0) [PInit; PPut (exP 0 0 100 0) None; PPut (exP 1 0 512 0) (Some (1 # 8))])
   = Some 50.
 Proof. vm_compute. reflexivity. Qed.
+
+(* The step configuration min_threshold = max_threshold (a legal RED parameterisation: no linear part).  The rule
+   of [red_curve_rule] needs only min <= max, so it covers this case; spelled out: between the common threshold and
+   qlimit one draw is made and the packet is refused iff u <= max_probability.  No quotient by max - min = 0 is
+   involved: [red_policy] takes the linear branch only when min <= avg < max, which forces min < max (Coq's total
+   division x / 0 = 0 is never evaluated on a reachable path, exactly as the code never divides there). *)
+Corollary red_step_rule f rate rc eid s p u s' outs :
+  r_min rc == r_max rc -> r_max rc <= r_qlimit rc ->
+  port_act (red_cfg f rate rc eid) s (PPut p u) = Some (s', outs) ->
+  r_min rc <= pavg s' -> pavg s' < r_qlimit rc ->
+  exists x, u = Some x /\ (In (ODrop p) outs <-> x <= r_maxp rc).
+Proof.
+  intros E W2 A L1 L2.
+  assert (WF : red_wf rc) by (split; [rewrite E; apply Qle_refl|exact W2]).
+  destruct (red_curve_rule f rate rc eid s p u s' outs WF A L1 L2) as (x & U & D).
+  exists x. split; [exact U|]. unfold red_curve in D.
+  destruct (Qlt_le_dec (pavg s') (r_max rc)) as [H|H]; [exfalso; lra|exact D].
+Qed.
+
+(* the linear branch of the model is taken only with min < max *)
+Lemma red_linear_branch_needs_gap rc s p x r a :
+  red_policy rc s p (Some x) = Some (r, a) -> a < r_max rc -> r_min rc < r_max rc.
+Proof.
+  intros H L. apply red_policy_inv in H as (_ & [(_ & U & _)|[(_ & [X|N] & _)|(_ & _ & _ & U & _)]]); try discriminate; lra.
+Qed.
+
+(* non-vacuity: step RED min = max = 1, qlimit 3, gain 1, max_probability 1/2: avg 0 accept without draw;
+   avg 1 with u = 1/2 refused (u = p), avg 1 with u = 3/4 accepted, avg 2 with u = 0 refused *)
+Example red_step_example :
+  option_map (fun r => (map uid (dropped (snd r)), map (fun x => uid (snd x)) (accepted (snd r)), pavg (fst r)))
+    (port_run (red_cfg all_fixed 64 {| r_min := 1; r_max := 1; r_maxp := 1 # 2; r_qlimit := 3; r_w := 0; r_lb := false |} None)
+       (port0 0) [PInit; PPut (exP 0 0 8 0) None; PPut (exP 1 0 8 0) (Some (1 # 2)); PPut (exP 2 0 8 0) (Some (3 # 4));
+                  PPut (exP 3 0 8 0) (Some 0)])
+  = Some ([1%nat; 3%nat], [0%nat; 2%nat], 2).
+Proof. vm_compute. reflexivity. Qed.
+
+(* the hypotheses of [red_step_rule] are met by a reachable state: second arrival of [red_step_example] *)
+Definition step_rc : redcfg := {| r_min := 1; r_max := 1; r_maxp := 1 # 2; r_qlimit := 3; r_w := 0; r_lb := false |}.
+
+Lemma red_step_witness :
+  exists s tr s' outs,
+    port_run (red_cfg all_fixed 64 step_rc None) (port0 0) [PInit; PPut (exP 0 0 8 0) None] = Some (s, tr) /\
+    port_act (red_cfg all_fixed 64 step_rc None) s (PPut (exP 1 0 8 0) (Some (1 # 2))) = Some (s', outs) /\
+    r_min step_rc == r_max step_rc /\ r_max step_rc <= r_qlimit step_rc /\
+    r_min step_rc <= pavg s' /\ pavg s' < r_qlimit step_rc /\ In (ODrop (exP 1 0 8 0)) outs.
+Proof.
+  eexists. eexists. eexists. eexists.
+  split; [lazy; reflexivity|]. split; [lazy; reflexivity|].
+  split; [reflexivity|]. split; [vm_compute; discriminate|]. split; [vm_compute; discriminate|].
+  split; [vm_compute; reflexivity|]. left. reflexivity.
+Qed.
